@@ -105,18 +105,20 @@ static void log_obs(int must1, int must2, int extra) {
   }
   vf_logf("]");
 }
+static int cur_t = 0;            /* virtual thread id of the running thread (0 = main) */
+static int cur_theap = 0;        /* heap id of the running worker thread's backing heap (0 on the main thread) */
 static int call_at = 0;   /* the op takes an explicit offset argument */
 static void log_call_begin(const char* op, int h, int id, long n, size_t al, size_t off, int zero, const char* cls, int arena, int stopat) {
-  vf_logf("{\"e\":\"call\",\"t\":0,\"at\":%s,\"op\":\"%s\",\"h\":%d,\"id\":%d,\"n\":%ld,\"al\":%zu,\"off\":%zu,\"zero\":%s,\"cls\":\"%s\",\"arena\":%d,\"stopat\":%d",
-          call_at ? "true" : "false", op, h, id, n, al, off, zero ? "true" : "false", cls, arena, stopat);
+  vf_logf("{\"e\":\"call\",\"t\":%d,\"at\":%s,\"op\":\"%s\",\"h\":%d,\"id\":%d,\"n\":%ld,\"al\":%zu,\"off\":%zu,\"zero\":%s,\"cls\":\"%s\",\"arena\":%d,\"stopat\":%d",
+          cur_t, call_at ? "true" : "false", op, h, id, n, al, off, zero ? "true" : "false", cls, arena, stopat);
   call_at = 0;
 }
 static void log_call_end(void) { vf_logf("}"); vf_log_line_end(); vf_in_call = 1; }
 typedef struct { int null; int id; void* a; size_t us, z, wr, keep; uint32_t gen; int rc, err, outkeep, res, h; long nvisited; } ret_t;
 static void log_ret_begin(const char* op, const ret_t* r) {
   vf_in_call = 0;
-  vf_logf("{\"e\":\"ret\",\"t\":0,\"op\":\"%s\",\"null\":%s,\"id\":%d,\"a\":[%ld,%ld],\"us\":%zu,\"z\":%zu,\"gen\":%u,\"wr\":%zu,\"keep\":%zu,\"rc\":%d,\"errno\":%d,\"outkeep\":%s,\"res\":%s,\"h\":%d,\"nvisited\":%ld",
-          op, r->null ? "true" : "false", r->id, VF_HI(r->a), VF_LO(r->a), r->us, r->z, r->gen, r->wr, r->keep, r->rc, r->err,
+  vf_logf("{\"e\":\"ret\",\"t\":%d,\"op\":\"%s\",\"null\":%s,\"id\":%d,\"a\":[%ld,%ld],\"us\":%zu,\"z\":%zu,\"gen\":%u,\"wr\":%zu,\"keep\":%zu,\"rc\":%d,\"errno\":%d,\"outkeep\":%s,\"res\":%s,\"h\":%d,\"nvisited\":%ld",
+          cur_t, op, r->null ? "true" : "false", r->id, VF_HI(r->a), VF_LO(r->a), r->us, r->z, r->gen, r->wr, r->keep, r->rc, r->err,
           r->outkeep ? "true" : "false", r->res ? "true" : "false", r->h, r->nvisited);
 }
 static void log_ret_end(void) { vf_logf("}"); vf_log_line_end(); }
@@ -257,7 +259,7 @@ static void op_alloc_ex(int op, size_t n, size_t al, size_t off, int hidx, int f
     size_t us = mi_usable_size(p);
     if (fl & F_ZERO) r.z = vf_zero_run(p, 0, us);
     if (fl & F_STR) r.keep = (memcmp(p, strsrc, n) == 0 ? n : 0);
-    int heapid = (hidx >= 0 ? hps[hidx].id : hps[dflt_idx].id);
+    int heapid = (hidx >= 0 ? hps[hidx].id : (cur_theap ? cur_theap : hps[dflt_idx].id));
     set_block(s, p, n, heapid, (fl & F_ZERO) != 0, al, off, (fl & F_ZERO) ? 1 : fillmode);
     /* touch and fill: the whole usable size must be writable */
     vf_fill(p, (uint32_t)slots[s].id, slots[s].gen, slots[s].wr);
@@ -369,7 +371,7 @@ static void op_realloc_ex(int op, int s /* slot or -1 for NULL input */, size_t 
     if (s >= 0) r.keep = vf_match(q, (uint32_t)old.id, old.gen, cmp, old.wr);
     size_t zfrom = (s >= 0 ? (old.req < n ? old.req : n) : 0);
     if (fl & F_ZERO) r.z = vf_zero_run(q, zfrom, us);
-    int heapid = (s >= 0 && q == old.p) ? old.heap : (hidx >= 0 ? hps[hidx].id : hps[dflt_idx].id);
+    int heapid = (s >= 0 && q == old.p) ? old.heap : (hidx >= 0 ? hps[hidx].id : (cur_theap ? cur_theap : hps[dflt_idx].id));
     int zl = (fl & F_ZERO) && (s >= 0 ? (old.zl && n >= old.req) : 1);
     set_block(ns, q, n, heapid, zl, al, off, (fl & F_ZERO) || (s >= 0 && old.zl) ? 1 : fillmode);
     vf_fill(q, (uint32_t)slots[ns].id, slots[ns].gen, slots[ns].wr);
@@ -553,7 +555,7 @@ static void op_write(void) {
   b->gen++;
   if (b->zl) { b->wr = b->req; } else if (vf_randn(3) == 0) { b->wr = (size_t)vf_randn(b->us + 1); } else b->wr = b->us;
   vf_fill(b->p, (uint32_t)b->id, b->gen, b->wr);
-  vf_logf("{\"e\":\"write\",\"t\":0,\"id\":%d,\"gen\":%u,\"wr\":%zu}", b->id, b->gen, b->wr); vf_log_line_end();
+  vf_logf("{\"e\":\"write\",\"t\":%d,\"id\":%d,\"gen\":%u,\"wr\":%zu}", cur_t, b->id, b->gen, b->wr); vf_log_line_end();
 }
 static void op_query(void) {
   int s = pick_live(); if (s < 0) return;
@@ -758,11 +760,158 @@ static void run_program(const char* path) {
   fclose(f);
 }
 
+/* ------------------------------------------------------------------ OS-level workloads (C07 C11 C18): rounds of
+   allocate-everything / free-everything (+ worker threads that exit) / forced collect / quiescence measurement */
+static void log_areas_list(void);
+typedef struct { long count; int first; } areas_t;
+static bool areas_visitor(const mi_heap_t* heap, const mi_heap_area_t* area, void* block, size_t bsize, void* arg) {
+  areas_t* v = (areas_t*)arg; (void)heap; (void)bsize;
+  if (block != NULL) return true;
+  size_t len = area->reserved;
+  vf_logf("%s[%ld,%ld,%ld,%ld]", v->first ? "" : ",", VF_HI(area->blocks), VF_LO(area->blocks), VF_HI(len), VF_LO(len));
+  v->first = 0; v->count++;
+  return true;
+}
+/* the page areas of all heaps of the main thread (retired all-free pages are still areas) */
+static void log_areas_list(void) {
+  areas_t v; v.count = 0; v.first = 1;
+  vf_logf("\"areas\":[");
+  for (int i = 0; i < MAXHEAPS; i++) if (hps[i].alive) mi_heap_visit_blocks(hps[i].hp, false, areas_visitor, &v);
+  vf_logf("]");
+}
+static void ev_areas(void) { vf_logf("{\"e\":\"areas\",\"t\":0,"); log_areas_list(); vf_logf("}"); vf_log_line_end(); }
+static void ev_mark(const char* what) { vf_logf("{\"e\":\"mark\",\"what\":\"%s\",", what); log_areas_list(); vf_logf("}"); vf_log_line_end(); }
+static long statm_pages(int field) {   /* 0 = size, 1 = resident */
+  long v[2] = {0, 0}; FILE* f = fopen("/proc/self/statm", "r"); if (!f) return 0;
+  if (fscanf(f, "%ld %ld", &v[0], &v[1]) != 2) { v[0] = v[1] = 0; } fclose(f); return v[field];
+}
+static void ev_quiesce(int round) {
+  vf_logf("{\"e\":\"quiesce\",\"round\":%d,\"arenas\":[", round);
+  size_t n = mi_arena_get_count(); int first = 1;
+  for (size_t i = 0; i < n; i++) { size_t sz = 0; void* st = mi_arena_area(mi_arena_id_create(i), &sz); if (st == NULL) continue;
+    vf_logf("%s[%ld,%ld,%ld,%ld]", first ? "" : ",", VF_HI(st), VF_LO(st), VF_HI(sz), VF_LO(sz)); first = 0; }
+  vf_logf("],\"resident\":%ld,\"vsize\":%ld,\"tol\":%d}", statm_pages(1), statm_pages(0), 96); vf_log_line_end();
+}
+static void do_collect(int force) {
+  ret_t r; memset(&r, 0, sizeof(r));
+  log_call_begin("collect", 0, 0, force, 0, 0, 0, "ok", 0, 0); log_obs(-1, -1, 0); log_call_end();
+  mi_collect(force);
+  log_ret_begin("collect", &r); log_obs(-1, -1, 2); log_ret_end();
+}
+static void free_all_of_thread(int heapid_or_all) {
+  for (int s = 0; s < MAXSLOTS; s++) if (slots[s].p && (heapid_or_all < 0 || slots[s].heap == heapid_or_all)) op_free_slot(s, FR_free);
+}
+static void alloc_many(int count, size_t lo, size_t hi, int ops_mix) {
+  for (int i = 0; i < count; i++) {
+    size_t n = lo + (size_t)vf_randn(hi - lo + 1);
+    int op = A_malloc;
+    if (ops_mix) { static const int mix[] = {A_malloc, A_zalloc, A_calloc, A_malloc_aligned, A_malloc, A_new_nothrow, A_posix_memalign}; op = mix[vf_randn(7)]; }
+    op_alloc_ex(op, n, (size_t)16 << vf_randn(4), 0, 0, 0);
+  }
+}
+/* worker thread: allocates, frees part, exits (its remaining blocks are freed by the main thread afterwards) */
+typedef struct { int t; int heapid; int count; size_t lo, hi; uint64_t seed; } worker_t;
+static void* worker_main(void* arg) {
+  worker_t* w = (worker_t*)arg;
+  cur_t = w->t; cur_theap = w->heapid;
+#if defined(VF_SHIM)
+  vf_cur_thread = w->t;
+#endif
+  vf_logf("{\"e\":\"tstart\",\"t\":%d,\"h\":%d}", w->t, w->heapid); vf_log_line_end();
+  alloc_many(w->count, w->lo, w->hi, 1);
+  int k = 0;
+  for (int s = 0; s < MAXSLOTS; s++) if (slots[s].p && slots[s].heap == w->heapid && (k++ % 2) == 0) op_free_slot(s, FR_free);
+  vf_in_call = 1; mi_thread_done(); vf_in_call = 0;   /* (also called again by the pthread key destructor: harmless) */
+  vf_logf("{\"e\":\"tdone\",\"t\":%d}", w->t); vf_log_line_end();
+  cur_t = 0; cur_theap = 0;
+#if defined(VF_SHIM)
+  vf_cur_thread = 0;
+#endif
+  return NULL;
+}
+static int next_thread_id = 1;
+static void run_worker(int count, size_t lo, size_t hi) {
+  worker_t w; w.t = next_thread_id++; w.heapid = next_heap_id++; w.count = count; w.lo = lo; w.hi = hi; w.seed = vf_rand();
+  pthread_t th; pthread_create(&th, NULL, worker_main, &w); pthread_join(th, NULL);
+}
+/* one allocate-everything phase of workload `wl` */
+static void workload_alloc(const char* wl) {
+  if (!strcmp(wl, "small")) { alloc_many(260, 1, 1024, 1); alloc_many(60, 1025, 8192, 1); }
+  else if (!strcmp(wl, "large")) { alloc_many(30, 8193, 131072, 1); alloc_many(24, 131073, 4u << 20, 0); alloc_many(3, 5u << 20, 15u << 20, 0); }
+  else if (!strcmp(wl, "huge")) { alloc_many(2, 17u << 20, 40u << 20, 0); alloc_many(1, 70u << 20, 100u << 20, 0);
+                                  op_alloc_ex(A_malloc_aligned, 3u << 20, 32u << 20, 0, 0, 0); op_alloc_ex(A_zalloc_aligned, 100000, 64u << 20, 0, 0, 0); alloc_many(20, 1, 100000, 1); }
+  else if (!strcmp(wl, "mt")) { alloc_many(80, 1, 20000, 1); run_worker(120, 1, 4096); run_worker(40, 4097, 300000); run_worker(2, 17u << 20, 20u << 20); }
+  else if (!strcmp(wl, "mix")) { alloc_many(120, 1, 2048, 1); alloc_many(20, 8193, 600000, 1); alloc_many(1, 17u << 20, 20u << 20, 0); run_worker(60, 1, 70000); }
+  else { fprintf(stderr, "unknown workload %s\n", wl); exit(2); }
+}
+static void run_rounds(const char* wl, int rounds, int recover_after /* round after which the fault plan is disarmed (C07), 0 = n/a */) {
+  const uint64_t round_seed = vf_rng_state;
+  for (int k = 1; k <= rounds; k++) {
+    vf_rng_state = round_seed;      /* every round is the same workload (same sizes, same entry points) */
+    workload_alloc(wl);
+    op_checkall();
+    /* user heaps: one per round, deleted/destroyed again */
+    if (k % 2 == 0) { heap_new_op(); int hi = 1; while (hi < MAXHEAPS && !hps[hi].alive) hi++; if (hi < MAXHEAPS) { op_alloc_ex(A_heap_malloc, 5000, 0, 0, hi, 0); op_alloc_ex(A_heap_zalloc, 70000, 0, 0, hi, 0); if (k % 4 == 0) heap_destroy_op(hi); else heap_delete_op(hi); } }
+    free_all_of_thread(-1);
+    do_collect(1);
+    ev_quiesce(k);
+#if defined(VF_SHIM)
+    if (recover_after == k) { vf_fault_armed = 0; vf_logf("{\"e\":\"mark\",\"what\":\"recover\",\"areas\":[]}"); vf_log_line_end(); }
+#endif
+  }
+}
+/* C18: free whole pages / whole segments / everything, then ordinary activity under a moving virtual clock */
+static void run_c18(const char* pattern, long step_ms) {
+#if defined(VF_SHIM)
+  int immediate = (mi_option_get(mi_option_purge_delay) == 0);
+  /* phase 1: build up */
+  if (!strcmp(pattern, "pages")) { alloc_many(200, 8000, 8192, 0); alloc_many(40, 30000, 32768, 0); }
+  else if (!strcmp(pattern, "segments")) { alloc_many(100, 900000, 1048576, 0); }
+  else { alloc_many(150, 8000, 8192, 0); alloc_many(70, 900000, 1048576, 0); alloc_many(100, 100, 1000, 0); }
+  ev_areas();
+  vf_clock_advance(3);
+  /* phase 2: free (whole pages while the segment stays / whole segments / everything) */
+  int keep_every = (!strcmp(pattern, "all") ? 0 : 4);
+  int i = 0;
+  for (int s = 0; s < MAXSLOTS; s++) if (slots[s].p) {
+    int keep = 0;
+    if (keep_every && !strcmp(pattern, "pages")) keep = (slots[s].id > 150 && slots[s].id <= 200) || (slots[s].id % 40 == 0);   /* free whole pages, keep the segment alive */
+    if (keep_every && !strcmp(pattern, "segments")) keep = (slots[s].id > 92);                                   /* whole segments go back, the last stays */
+    i++;
+    if (!keep) { op_free_slot(s, FR_free); if (immediate) ev_areas(); }
+  }
+  ev_mark("t0");
+  /* phase 3: ordinary activity: allocate / free blocks of size classes not used before, non-forced collects, clock moves between calls */
+  static const size_t fresh[] = {48, 320, 3000, 20000, 48, 70000, 320, 200000, 3000, 48, 20000, 320};
+  int held[12]; int nh = 0;
+  for (int k = 0; k < 12; k++) {
+    vf_clock_advance(step_ms);
+    int before = next_id;
+    op_alloc_ex(A_malloc, fresh[k], 0, 0, 0, 0);
+    if (next_id != before) held[nh++] = slot_of_last();
+    ev_areas();
+    vf_clock_advance(step_ms);
+    if (nh > 0 && k % 2 == 1) { op_free_slot(held[--nh], FR_free); ev_areas(); vf_clock_advance(step_ms); }
+    do_collect(0);
+    ev_areas();
+  }
+  vf_clock_advance(step_ms);
+  while (nh > 0) { op_free_slot(held[--nh], FR_free); ev_areas(); vf_clock_advance(step_ms); }
+  do_collect(0); ev_areas();
+  vf_clock_advance(step_ms);
+  op_alloc_ex(A_malloc, 48, 0, 0, 0, 0); ev_areas();
+  ev_mark("c18check");
+#else
+  (void)pattern; (void)step_ms;
+#endif
+}
+
 /* ------------------------------------------------------------------ main loop */
 static void usage(void) { fprintf(stderr, "usage: drv_api --out F [--seed S] [--ops N] [--maxlive L] [--profile P]\n"); exit(2); }
 
 int main(int argc, char** argv) {
   const char* out = NULL; const char* profile = "c01"; const char* progpath = NULL; uint64_t seed = 1; long ops = 2000;
+  const char* workload = NULL; const char* c18pat = NULL; int rounds = 3; long c18step = 100; long fault_at = 0; int fault_persist = 0, fault_kind = 0, recover_after = 0, count_os = 0;
   for (int i = 1; i < argc; i++) {
     if (!strcmp(argv[i], "--out") && i + 1 < argc) out = argv[++i];
     else if (!strcmp(argv[i], "--seed") && i + 1 < argc) seed = strtoull(argv[++i], NULL, 10);
@@ -773,6 +922,15 @@ int main(int argc, char** argv) {
     else if (!strcmp(argv[i], "--prog") && i + 1 < argc) progpath = argv[++i];
     else if (!strcmp(argv[i], "--clock") && i + 1 < argc) clock_on = atol(argv[++i]);
     else if (!strcmp(argv[i], "--noheaps")) allow_heaps = -1;
+    else if (!strcmp(argv[i], "--workload") && i + 1 < argc) workload = argv[++i];
+    else if (!strcmp(argv[i], "--rounds") && i + 1 < argc) rounds = atoi(argv[++i]);
+    else if (!strcmp(argv[i], "--c18") && i + 1 < argc) c18pat = argv[++i];
+    else if (!strcmp(argv[i], "--step") && i + 1 < argc) c18step = atol(argv[++i]);
+    else if (!strcmp(argv[i], "--fault") && i + 1 < argc) fault_at = atol(argv[++i]);
+    else if (!strcmp(argv[i], "--persist")) fault_persist = 1;
+    else if (!strcmp(argv[i], "--kind") && i + 1 < argc) fault_kind = atoi(argv[++i]);
+    else if (!strcmp(argv[i], "--recover") && i + 1 < argc) recover_after = atoi(argv[++i]);
+    else if (!strcmp(argv[i], "--countos")) count_os = 1;
     else if (!strcmp(argv[i], "--wordoffsets")) word_offsets = atoi(argv[++i]);   /* only the backing heap (explicit-heap entry points still used, on the backing heap) */
     else usage();
   }
@@ -809,7 +967,12 @@ int main(int argc, char** argv) {
   vf_logf("\"}");
   vf_log_line_end();
 
+#if defined(VF_SHIM)
+  vf_fault_at = fault_at; vf_fault_persist = fault_persist; vf_fault_kind = fault_kind;
+#endif
   if (progpath) { run_program(progpath); ops = 0; }
+  if (workload) { run_rounds(workload, rounds, recover_after); ops = 0; }
+  if (c18pat) { run_c18(c18pat, c18step); ops = 0; }
   int total = w_alloc + w_free + w_realloc + w_write + w_query + w_heap + w_visit + w_collect + w_expand + w_chain + w_bad;
   for (nops = 0; nops < ops; nops++) {
     int r = (int)vf_randn((uint64_t)total);
@@ -837,7 +1000,12 @@ int main(int argc, char** argv) {
   /* wind down: free everything, final visits */
   for (int s = 0; s < MAXSLOTS; s++) if (slots[s].p) op_free_slot(s, FR_free);
   for (int i = 0; i < MAXHEAPS; i++) if (hps[i].alive) op_visit(i, 0);
+#if defined(VF_SHIM)
+  if (count_os) { fprintf(stdout, "OSCALLS %ld %ld\n", vf_os_count, vf_os_kcount); }
+  vf_logf("{\"e\":\"end\",\"oscalls\":%ld,\"refused\":%ld}", vf_os_count, vf_os_refused); vf_log_line_end();
+#else
   vf_logf("{\"e\":\"end\"}"); vf_log_line_end();
+#endif
   vf_log_close();
   return 0;
 }
